@@ -23,4 +23,8 @@ PairFails(o) ==
   \cup (IF o.poly = 0 \/ o.map2 = ShiftCRuns(o.map0, o.by) THEN {} ELSE {"moved_vertices_map_not_shifted"})
   \* the styled object moved with Styled::translate / translate_mut (for other drawables map3 = map1)
   \cup (IF o.map3 = ShiftCRuns(o.map0, o.by) THEN {} ELSE {"translated_styled_object_map_not_shifted"})
+  \* texts and images: the object returned by translate / changed by translate_mut, drawn itself
+  \cup (IF \A k \in 1..Len(o.objs) : o.objs[k].map = ShiftCRuns(o.map0, o.by) THEN {} ELSE {"translated_object_map_not_shifted"})
+  \cup (IF \A k \in 1..Len(o.objs) : IsEmpty(o.box0) \/ o.objs[k].box = Shift(o.box0, o.by) THEN {} ELSE {"translated_object_bounding_box_not_shifted"})
+  \cup (IF \A k \in 1..Len(o.objs) : o.next0 = <<>> \/ o.objs[k].next = <<o.next0[1] + o.by[1], o.next0[2] + o.by[2]>> THEN {} ELSE {"translated_object_next_position_not_shifted"})
 =============================================================================
